@@ -4,7 +4,6 @@ package main
 
 import (
 	"crypto/aes"
-	"encoding/binary"
 	"fmt"
 	"io"
 	"log"
@@ -245,53 +244,10 @@ func forge(r *cq.RNG, up bool, v lorawan.MACVersion, conf uint32, dr, ch uint8, 
 		return p, false
 	}
 	msg := b[:len(b)-4]
-	hdr := func(first [5]byte, dir byte) []byte { // 0x49 | four bytes | dir | DevAddr | FCnt | 0 | len
-		x := make([]byte, 16)
-		copy(x, first[:])
-		x[5] = dir
-		for i := 0; i < 4; i++ {
-			x[6+i] = m.FHDR.DevAddr[3-i]
-		}
-		binary.LittleEndian.PutUint32(x[10:14], m.FHDR.FCnt)
-		x[15] = byte(len(msg))
-		return x
-	}
-	c16 := uint16(0)
-	if m.FHDR.FCtrl.ACK {
-		c16 = uint16(conf)
-	}
-	var tag [16]byte
-	copy(tag[:4], want[:])
-	copy(tag[4:], r.Bytes(12))
-	var last [16]byte
-	switch {
-	case !up:
-		first := [5]byte{0x49}
-		if v != lorawan.LoRaWAN1_0 {
-			first[1], first[2] = byte(c16), byte(c16>>8)
-		}
-		c := micforge.New(sk)
-		last = c.LastBlock(c.State(append(hdr(first, 1), msg[:len(msg)-16]...)), tag)
-	case v == lorawan.LoRaWAN1_0:
-		c := micforge.New(fk)
-		last = c.LastBlock(c.State(append(hdr([5]byte{0x49}, 0), msg[:len(msg)-16]...)), tag)
-	default:
-		cs, cf := micforge.New(sk), micforge.New(fk)
-		ss := cs.State(append(hdr([5]byte{0x49, byte(c16), byte(c16 >> 8), dr, ch}, 0), msg[:len(msg)-16]...))
-		sf := cf.State(append(hdr([5]byte{0x49}, 0), msg[:len(msg)-16]...))
-		found := false
-		var ts [16]byte
-		ts[0], ts[1] = want[0], want[1]
-		for i := 0; i < 4000000 && !found; i++ {
-			binary.LittleEndian.PutUint64(ts[2:10], r.U64())
-			binary.LittleEndian.PutUint32(ts[10:14], uint32(i))
-			last = cs.LastBlock(ss, ts)
-			t := cf.TagAligned(sf, last)
-			found = t[0] == want[2] && t[1] == want[3]
-		}
-		if !found {
-			return p, false
-		}
+	last, ok := micforge.ForgeData(micforge.DataParams{Uplink: up, V11: v != lorawan.LoRaWAN1_0, ACK: m.FHDR.FCtrl.ACK, Conf: conf,
+		TxDR: dr, TxCh: ch, FKey: fk, SKey: sk, DevAddr: m.FHDR.DevAddr, FCnt: m.FHDR.FCnt}, msg[:len(msg)-16], want, r.U64)
+	if !ok {
+		return p, false
 	}
 	copy(pay.Bytes[n-16:], last[:])
 	return p, true
